@@ -107,6 +107,17 @@ func repProfile(p *sx.Program, sk *Skeleton, profile string) *Skeleton {
 		tm.ContainerReps = true
 	case "wrappers":
 		tm.Wrappers = true
+	case "bigint":
+		// 64-bit integer kinds over their whole range, restricted to values that are exactly a float64
+		tm.NumReps = []int{sx.RepFloat64, sx.RepInt64, sx.RepUint64, sx.RepUint, sx.RepUintptr}
+		tm.IntExactFloat = true
+	case "ptrcontainers":
+		// typed containers whose element type is T or *T, or a Go array [n]any
+		tm.NumReps = []int{sx.RepFloat64, sx.RepInt}
+		tm.IntAbsLimit = two53
+		tm.ContainerReps = true
+		tm.Wrappers = true
+		tm.RootTyped = true
 	case "all":
 		tm.NumReps = []int{sx.RepFloat64, sx.RepInt64, sx.RepUint8, sx.RepJSONNumber}
 		tm.IntAbsLimit = two53
@@ -128,9 +139,15 @@ func checkC08(cc *CheckCtx, r *Report) {
 		if kind != "scalar" || strings.Contains(sk.Doc, "enum") || strings.Contains(sk.Doc, "const") {
 			skels = append(skels, repProfile(cc.P, sk, "containers"), repProfile(cc.P, sk, "wrappers"))
 		}
+		if sk.Family == "F-single" && kind == "scalar" {
+			skels = append(skels, repProfile(cc.P, sk, "bigint"))
+		}
+		if sk.Family == "F-single" && kind != "scalar" {
+			skels = append(skels, repProfile(cc.P, sk, "ptrcontainers"))
+		}
 	}
 	r.Bounds = append(r.Bounds, boundsValidate...)
-	r.Bounds = append(r.Bounds, "representation profiles: numeric (all 14 numeric kinds incl. float32 and json.Number, containers canonical), containers (typed slices/maps, Go arrays, named string and named key types; numbers float64|int), wrappers (one pointer layer at top level and in interface slots); integer-kind and json.Number values bounded by |v| <= 2^53 and json.Number texts integral, where the exact value equals the canonical float64 decoding")
+	r.Bounds = append(r.Bounds, "representation profiles: numeric (all 14 numeric kinds incl. float32 and json.Number, containers canonical), containers (typed slices/maps, Go arrays, named string and named key types; numbers float64|int), wrappers (one pointer layer at top level and in interface slots); bigint (F-single scalar keywords: int64/uint64/uint/uintptr over their whole range, restricted to values that are exactly a float64), ptrcontainers (F-single container keywords: the root is a typed slice/map whose element type is T, *T or a Go array [n]any); otherwise integer-kind and json.Number values bounded by |v| <= 2^53 and json.Number texts integral, where the exact value equals the canonical float64 decoding")
 	r.Outside = append(r.Outside, "nil slices, nil maps and struct instances (the property's own exclusions); integers beyond 2^53 and json.Number texts that are not exactly a float64 (canonical decoding rounds them; decimal-to-binary rounding is not modelled)")
 	cc.RunValidateFamily(r, skels, VOptions{ValidatePaths: true})
 }
